@@ -229,7 +229,7 @@ def abs (s : Store) : AStore := AL.mapv recOf s
 def WFB (b : Bucket) : Prop := ∀ k bs, b k = some bs → ∃ v : Int, bs = enc k v
 def WFS (s : Store) : Prop := ∀ p ∈ s, WFB p.2
 
-/-- what the repaired tree guarantees about the four places -/
+/-- what the repaired tree guarantees about the five places -/
 structure Good (F : Facts) : Prop where
   g8_absent : F.g8 0 = true
   g8_full : F.g8 8 = false
@@ -237,6 +237,7 @@ structure Good (F : Facts) : Prop where
   g4_full : F.g4 4 = false
   ret : F.postRetMismatch = true
   valve : ∀ up down, F.valveGuard up down = true ↔ (up ≤ 0 ∨ down ≤ 0)
+  copy : F.listCopiesUID = true
 
 theorem enc_length (k : Key) (v : Int) : (enc k v).length = k.width := by
   cases k <;> simp [enc, Key.width, length_beBytes]
